@@ -6,6 +6,56 @@ use std::cell::RefCell;
 thread_local! {
     static LAST: RefCell<Option<(String, String)>> = const { RefCell::new(None) };
     static DEPTH: std::cell::Cell<u32> = const { std::cell::Cell::new(0) };
+    static CONTEXT: RefCell<String> = const { RefCell::new(String::new()) };
+    static EXEMPT: std::cell::Cell<bool> = const { std::cell::Cell::new(false) };
+}
+
+// ---------------------------------------------------------------------------------------------
+// watchdog: a call into the code under test that never returns (a parser or rewrite loop that stops
+// advancing) must not hang the check. Every outermost `guarded` call registers a slot; a watchdog thread
+// reports a call that has been running for longer than the limit as a violation and ends the run.
+
+struct Slot {
+    tid: std::thread::ThreadId,
+    since: std::time::Instant,
+    what: String,
+}
+
+static SLOTS: std::sync::Mutex<Vec<Slot>> = std::sync::Mutex::new(Vec::new());
+
+/// describe the instance this thread is working on (shown if the watchdog fires)
+pub fn set_context(s: impl Into<String>) {
+    CONTEXT.with(|c| *c.borrow_mut() = s.into());
+}
+
+/// threads that run the code under test under their own time limit (bmc / pdr runs)
+pub fn exempt_this_thread() {
+    EXEMPT.with(|e| e.set(true));
+}
+
+pub fn start_watchdog(prop: &str, tier: crate::report::Tier, seed: u64, limit_s: u64) {
+    let prop = prop.to_string();
+    std::thread::spawn(move || {
+        loop {
+            std::thread::sleep(std::time::Duration::from_secs(2));
+            let stuck = {
+                let slots = SLOTS.lock().unwrap_or_else(|e| e.into_inner());
+                slots.iter().find(|s| s.since.elapsed().as_secs() > limit_s).map(|s| s.what.clone())
+            };
+            if let Some(what) = stuck {
+                let mut rep = crate::report::Report::new(&prop, tier, seed, "other");
+                rep.count("obligations", 1);
+                rep.violation(
+                    crate::report::Role::new("code under test (watchdog of the harness)", "call", "no-return-within-limit"),
+                    format!("a call into the code under test has not returned for more than {limit_s} s while working on: {}; the run was ended by the watchdog, results of other instances are discarded", if what.is_empty() { "(instance not recorded)" } else { &what }),
+                    serde_json::json!({"watchdog_limit_s": limit_s, "instance": what}),
+                );
+                rep.extra.insert("aborted_by_watchdog".into(), serde_json::json!(true));
+                let code = rep.finish();
+                std::process::exit(code);
+            }
+        }
+    });
 }
 
 pub fn install() {
@@ -45,9 +95,18 @@ pub fn take() -> (String, String) {
 
 /// Run `f`, catching panics; Err carries (location, message).
 pub fn guarded<T>(f: impl FnOnce() -> T) -> Result<T, (String, String)> {
+    let outermost = DEPTH.with(|d| d.get()) == 0 && !EXEMPT.with(|e| e.get());
+    let tid = std::thread::current().id();
+    if outermost {
+        let what = CONTEXT.with(|c| c.borrow().clone());
+        SLOTS.lock().unwrap_or_else(|e| e.into_inner()).push(Slot { tid, since: std::time::Instant::now(), what });
+    }
     DEPTH.with(|d| d.set(d.get() + 1));
     let r = std::panic::catch_unwind(std::panic::AssertUnwindSafe(f));
     DEPTH.with(|d| d.set(d.get() - 1));
+    if outermost {
+        SLOTS.lock().unwrap_or_else(|e| e.into_inner()).retain(|s| s.tid != tid);
+    }
     match r {
         Ok(v) => Ok(v),
         Err(_) => Err(take()),
